@@ -68,6 +68,12 @@ def call_builtin(E, st, name, args, kwargs, node=None):
         raise Unsupported("len of %s" % (a.kind,))
     if name == "isinstance":
         return ok(st, vbool(_isinstance(E, args[0], args[1])))
+    if name == "issubclass":
+        # on a class object the engine knows nothing about (the exc_type handed to __exit__): either answer is possible
+        if args and args[0].kind.tag in ("ref", "any", "fn"):
+            E.trusted.add("issubclass(<opaque class object>, C) is an arbitrary boolean")
+            return ok(st, vbool(z3.Bool(fresh_name("issubclass"))))
+        raise Unsupported("issubclass of %s" % (args[0].kind if args else "nothing",))
     if name == "bool":
         if not args:
             return ok(st, vbool(False))
